@@ -147,6 +147,8 @@ def main(argv: list[str]) -> int:
                 rc = max(rc, run_property(prop, tier))
             return rc
         return run_property(cmd, tier)
+    except BrokenPipeError:
+        return 2
     except AnalysisError as err:
         print(f"ANALYSIS-ERROR {err}")
         return 2
